@@ -8,7 +8,7 @@
 (***************************************************************************)
 EXTENDS SeqObject, TLC
 MCObjIds == {1, 2}
-MCPool == { <<"G","Q","S","N","T">>, <<"K","E","S","G","T","E","K","Y">>, <<"D","R","T","G","S","K","E","Y">>, <<"K","K","G","S","K">> }
+MCPool == { <<"G","Q","S","N","T">>, <<"K","E","S","G","T","E","K","Y">>, <<"D","R","T","G","S","K","E","Y">>, <<"K","K","G","S","K">>, <<"D","R","K","K","G","S","E">> }
 MCSiteArgs == { <<3>>, <<5, 3>>, <<0, 9>>, <<8, 8, 4>>, <<-1, 1>> }
 PalValid == [r \in Residues |-> "red"]
 PalExtra == [r \in Residues \cup {"X"} |-> IF r = "X" THEN "pink" ELSE "blue"]
@@ -25,5 +25,6 @@ MCSiteArgsPhosH == {<<a>> : a \in -1..7} \cup {<<4, 1>>, <<5, 5>>, <<0, 2, 9>>, 
 \* quick variants
 MCSiteArgsQ == { <<5, 3>>, <<0, 9>> }
 MCPalArgsQ == {PalExtra, PalBadColour}
-MCPoolQ == { <<"G","Q","S","N","T">>, <<"K","E","S","G","T","E","K","Y">>, <<"D","R","T","G","S","K","E","Y">> }
+\* the last one is of the class whose delta / delta-max lies in (1, 1.1) (kappa is reported as 1)
+MCPoolQ == { <<"G","Q","S","N","T">>, <<"K","E","S","G","T","E","K","Y">>, <<"D","R","T","G","S","K","E","Y">>, <<"D","R","K","K","G","S","E">> }
 =============================================================================
